@@ -359,7 +359,7 @@ def _enum(tier, shard, nshards):
 PHASES = [
     MachinePhase("machine", _machine, dict(quick=600, thorough=4000),
                  dict(quick=30, thorough=60)),
-    HypPhase("pairs", _pair, dict(quick=4000, thorough=40000)),
+    HypPhase("pairs", _pair, dict(quick=6000, thorough=40000)),
     EnumPhase("grid6", _enum,
               lambda tier: "pwc and pwl: every ordered pair of breakpoint subsets of the "
                            "interior grid {1..6} on [0,7] (2 x 64 x 64 pairs)",
